@@ -154,3 +154,57 @@ def run(chk, F):
              if (c.get("name") or "").startswith("xmlTextWriter"))
     chk.ob(rid, "who-writes", not bad and nw >= 6,
            "XMLWriter writes to the output other than through the libxml2 writer API: %s" % bad, "src/xmlwriter.cpp")
+
+
+# libxml2 xmlwriter API, by what it does with its content argument (documented behaviour of libxml2's
+# xmlwriter.c: WriteString/WriteAttribute/WriteElement escape through xmlEncodeSpecialChars /
+# xmlAttrSerializeTxtContent; the Raw/CDATA/Comment/PI family copies the bytes verbatim)
+ESCAPING = {"xmlTextWriterWriteString", "xmlTextWriterWriteAttribute", "xmlTextWriterWriteElement",
+            "xmlTextWriterWriteFormatString", "xmlTextWriterWriteFormatAttribute", "xmlTextWriterWriteFormatElement",
+            "xmlTextWriterWriteAttributeNS", "xmlTextWriterWriteElementNS", "xmlTextWriterWriteBase64",
+            "xmlTextWriterWriteBinHex"}
+VERBATIM = {"xmlTextWriterWriteRaw", "xmlTextWriterWriteRawLen", "xmlTextWriterWriteFormatRaw",
+            "xmlTextWriterWriteVFormatRaw", "xmlTextWriterWriteCDATA", "xmlTextWriterWriteFormatCDATA",
+            "xmlTextWriterStartCDATA", "xmlTextWriterWriteComment", "xmlTextWriterWriteFormatComment",
+            "xmlTextWriterStartComment", "xmlTextWriterWritePI", "xmlTextWriterWriteFormatPI",
+            "xmlTextWriterStartPI", "xmlTextWriterWriteDTD", "xmlTextWriterWriteDTDEntity",
+            "xmlTextWriterWriteDTDInternalEntity", "xmlTextWriterWriteDTDExternalEntity"}
+
+
+def run_escape(chk, F, rid="R-ESCAPE"):
+    """Well-formedness for every document: model text (names, ids, printed expressions) may contain <, >, &, quotes
+    and `]]>`.  It stays well-formed only if every piece of data reaches the file through a libxml2 call that
+    escapes it; the verbatim family (Raw, CDATA, Comment, PI, DTD) is allowed with string literals only."""
+    chk.rule(rid, "text that comes from the document reaches the output only through escaping libxml2 writer calls "
+                  "(WriteString / WriteAttribute / WriteElement); the verbatim family (Raw, CDATA, Comment, PI, DTD) is "
+                  "called with string literals only")
+    n = 0
+    for fn in F.functions.values():
+        if not (fn.get("file") or "").endswith("xmlwriter.cpp"):
+            continue
+        for c in calls(fn.get("body")):
+            name = c.get("name") or ""
+            if not name.startswith("xmlTextWriter"):
+                continue
+            if name in ESCAPING:
+                n += 1
+                chk.ob(rid, "%s|%s" % (fn["name"], name), True, "%s escapes its content" % name,
+                       "%s:%s" % (fn["file"], c.get("l")))
+            elif name in VERBATIM or "Raw" in name or "CDATA" in name:
+                n += 1
+                args = c.get("args", [])[1:]
+                lit = all(_literal(a) for a in args)
+                chk.ob(rid, "%s|%s" % (fn["name"], name), lit,
+                       "%s::%s passes non-literal data to %s, which copies it verbatim: text containing `]]>`, `--`, "
+                       "`<` or `&` (e.g. a location id, a name, a printed expression) makes the written file "
+                       "ill-formed" % (fn.get("cls", "").split("::")[-1] or "xmlwriter.cpp", fn["name"], name)
+                       if not lit else "%s is called with literals only" % name, "%s:%s" % (fn["file"], c.get("l")))
+    if n < 4:
+        raise AnalysisBroken("only %d libxml2 writer calls found in xmlwriter.cpp" % n)
+
+
+def _literal(a):
+    while isinstance(a, dict) and a.get("k") == "cast":
+        a = a["e"]
+    return isinstance(a, dict) and a.get("k") in ("str", "null", "int", "char") or \
+        (isinstance(a, dict) and a.get("k") == "ref" and a.get("dk") == "global" and (a.get("t") or "").startswith("const"))
